@@ -263,3 +263,23 @@ Proof.
 Qed.
 Example ex_workbook_read_back : md_structure (render ex_workbook) = map entry ex_workbook /\ length (render ex_workbook) = 145%nat.
 Proof. split; vm_compute; reflexivity. Qed.
+
+(* ---- a text without a single table row gives no sheet at all (so the Markdown reader reports a read error and the next reader,
+        CSV, gets its turn: defect F11) ---- *)
+Lemma step_no_row s l : is_comment l = true \/ md_cell_group (cut_inline_comment l) = None -> step s l = s.
+Proof. unfold step. intros [H|H]; [rewrite H; reflexivity|]. destruct (is_comment l); [reflexivity|]. rewrite H. reflexivity. Qed.
+Theorem no_rows_no_sheets text :
+  (forall l, In l (split_on 10 text) -> is_comment l = true \/ md_cell_group (cut_inline_comment l) = None) -> md_structure text = [].
+Proof.
+  unfold md_structure. generalize (split_on 10 text) as lines. intros lines H.
+  assert (E : forall s, fold_left step lines s = s).
+  { induction lines as [|l r IH]; intro s; [reflexivity|]. cbn [fold_left]. rewrite (step_no_row s l (H l (or_introl eq_refl))).
+    apply IH. intros l' Hl'. apply H. right. exact Hl'. }
+  rewrite E. reflexivity.
+Qed.
+(* a CSV workbook whose label holds seven pipes: no line is a table row *)
+Definition ex_csv_with_pipes : str :=
+  [115;117;114;118;101;121;44;44;44;10; 44;116;121;112;101;44;110;97;109;101;44;108;97;98;101;108;10;
+   44;116;101;120;116;44;113;44;34;97;32;124;32;98;32;124;32;99;32;124;32;100;32;124;32;101;32;124;32;102;32;124;32;103;32;124;34;10].
+Lemma ex_csv_has_no_rows : md_structure ex_csv_with_pipes = [] /\ Nat.le 5 (length (filter (fun c => N.eqb c PIPE) ex_csv_with_pipes)).
+Proof. split; [vm_compute; reflexivity|vm_compute]. repeat constructor. Qed.
